@@ -27,6 +27,8 @@ def confirm(seed):
     dc = meta.get('demo_cmd', '')
     m = re.search(r'cp\s+\S*demo_test\.go\s+(\S+)', dc)
     dest = m.group(1) if m else None
+    if dest:
+        dest = re.sub(r'^/tmp/seed/[A-Za-z0-9]+/', '', dest)
     if not dest:
         src = open(os.path.join(seed, 'demo_test.go')).read()
         return name, {'error': 'cannot parse demo destination from demo_cmd'}
